@@ -343,6 +343,9 @@ impl Local {
     pub fn single<F: FnMut(&mut Local) -> u64>(&mut self, mut body: F) {
         let h = body(self);
         self.stats.executions += 1;
+        // an execution inside a case is a leaf of the choice tree below the case node
+        self.stats.states += 1;
+        self.stats.transitions += 1;
         self.exec_counter += 1;
         self.case_exec += 1;
         self.outcome(h);
@@ -404,6 +407,8 @@ pub struct Report {
     pub extra: Vec<(String, J)>,
     pub watchdog: Option<Duration>,
     pub skipped_subs: Vec<String>,
+    /// number of cases a worker pulls from the enumerator at a time
+    pub dispatch_chunk: usize,
 }
 
 pub fn parse_args(id: &str) -> Cfg {
@@ -522,6 +527,7 @@ impl Report {
             extra: Vec::new(),
             watchdog: None,
             skipped_subs: Vec::new(),
+            dispatch_chunk: 64,
         }
     }
 
@@ -572,6 +578,8 @@ impl Report {
         let stop = AtomicBool::new(false);
         let start = self.start;
         let watchdog = self.watchdog;
+        #[allow(non_snake_case)]
+        let CHUNK = self.dispatch_chunk.max(1);
         let beats: Vec<Arc<Heartbeat>> = (0..threads)
             .map(|_| {
                 Arc::new(Heartbeat {
@@ -598,7 +606,6 @@ impl Report {
                     let mut lx = Local::new(&name);
                     lx.heartbeat = Some(hb.clone());
                     let mut samples: Vec<String> = Vec::new();
-                    const CHUNK: usize = 64;
                     let mut buf: Vec<(u64, C)> = Vec::with_capacity(CHUNK);
                     loop {
                         if stop.load(Ordering::Relaxed) {
